@@ -14,6 +14,19 @@ CHECKS = {
    design="4/C05"),
 }
 
+CHECKS["C19"] = dict(
+   category="model_checking", engine="A explicit-state over the real maps (+ C controlled scheduler for the concurrent clause)",
+   technique="explicit-state BFS to a fixpoint of canonical heap states of the real generated maps, reference insertion-ordered map as oracle",
+   text="Breadth-first search over ALL operation sequences of the 19-operation alphabet (3 keys, 2 values, 4 predicates, failing Map callback) on the real ASTNodes, RuleASTNodes (zero value, New..., Make...) and Constraints objects until no new canonical state (order backing array incl. stale tail, len, data) appears; this covers histories of any length, not only 6. Every observer and every callback visit log is compared with a 30-line reference map in every state; merges are validated by recomputing successors.",
+   note="Trusted: the reference map; the state key is validated as a bisimulation on every merge. Map's behaviour on callback error (earlier entries stay updated) is taken from the generated code's documented contract.",
+   design="4/C19")
+CHECKS["C10"] = dict(
+   category="exploration", engine="B small-scope enumeration with exact reference",
+   technique="exhaustive enumeration of all numerals up to 6/7 chars and all pairs up to 4/5 chars against math/big; greedy reduction of counterexamples to minimal cores",
+   text="Every string of <= 6 (thorough 7) characters over {-,0,1,5,9,.,e,E,+} is classified; every RFC 8259 numeral among them goes through the internal Number (hook) and is compared with math/big on normalised expansion, fractional length and order against a 46-numeral probe set in both directions; all ordered pairs of numerals <= 4 (5) characters are compared; at API level 9 rule forms (float, integer, min, max, exclusive true/false, precision) x all exponent-free bounds <= 4 chars x all numerals <= 5 (6) chars are validated and compared with exact arithmetic; a structured family of long numerals (digit blocks up to 60 digits, exponents to +-400) is compared pairwise. Counterexamples are reduced to minimal cores which identify known findings.",
+   note="Trusted: math/big and the 40-line decimal reference. Not asserted: integer-ness of 1.0-style numerals; the internal parser's behaviour on strings that are not RFC numerals.",
+   design="4/C10")
+
 NOT_YET = {
 }
 
